@@ -36,20 +36,20 @@ Proof.
   - subst. split_T s T.
     + apply ht_commit_call; auto.
     + oth A T.
-  - destruct St as (Hh & Hpw & Hpc & ->). apply fb_false in Hh. split_T s T.
+  - destruct St as (Hh & Hpw & Hpc & Hlk & ->). apply fb_false in Hh. split_T s T.
     + eapply ht_mutations; eauto.
     + oth A T.
   - subst. split_T s T.
     + apply ht_pw_send. exact (A s).
     + oth A T.
-  - subst. plain A T.
-  - subst. split_T s T.
+  - destruct St as [_ (c' & Hsame & ->)]. untr A s T. apply dlv_tr_same. exact Hsame.
+  - destruct St as [_ ->]. split_T s T.
     + apply ht_pw_reply. exact (A s).
     + oth A T.
   - destruct St as [_ St].
     pose proof (ht_cm_send pre s r c ks (vgetc v s) (A s)) as X.
     destruct (fb (vgetc v s) FHasm) eqn:Eh.
-    + destruct St as (_ & Hts & _ & _ & St). specialize (X (fun _ => Hts)).
+    + destruct St as (_ & Hts & _ & _ & _ & St). specialize (X (fun _ => Hts)).
       apply fb_true in Eh. apply N.eqb_neq in Eh. rewrite Eh in X. cbn [orb] in X.
       destruct (mem (cn (vgetc v s) FPrim) ks).
       * subst. split_T s T; [exact X | oth A T].
@@ -85,9 +85,9 @@ Proof.
   - subst. plain A T.
   - subst. plain A T.
   - destruct St as [_ ->]. plain A T.
+  - destruct St as (c' & Hsame & [-> | ->]); [plain A T |]. untr A s T. apply dlv_tr_same. exact Hsame.
   - subst. plain A T.
-  - subst. plain A T.
-  - subst. plain A T.
+  - destruct St as [_ ->]. plain A T.
   - subst. plain A T.
   - subst. plain A T.
   - destruct St as [_ ->]. plain A T.
